@@ -22,7 +22,7 @@ CHECKS = {
     "C01": {
         "level": "exploration",
         "legs": [("cost", "C01")],
-        "quick": {"runs": 15000, "wall": 70},
+        "quick": {"runs": 11000, "wall": 70},
         "thorough": {"runs": 400000, "wall": 1500},
     },
     "C10": {
